@@ -450,6 +450,14 @@ class MarkFeatureWriter(BaseFeatureWriter):
         newDefs = []
         for markAnchorName, glyphAnchorPairs in sorted(markGlyphSets.items()):
             className = ast.makeFeaClassName(classPrefix + markAnchorName)
+            if self._markClassClashes(
+                currentClasses.get(className), glyphAnchorPairs
+            ):
+                # the feature file already defines one of these mark glyphs in this
+                # markClass with a different anchor: define all the marks of this
+                # anchor in a new unique markClass, or the ones defined before the
+                # clashing glyph would be left in a class no lookup refers to
+                className = ast.makeFeaClassName(className, currentClasses)
             for glyphName, anchor in glyphAnchorPairs.items():
                 mcd = self._defineMarkClass(
                     glyphName, anchor.x, anchor.y, className, currentClasses
@@ -460,6 +468,21 @@ class MarkFeatureWriter(BaseFeatureWriter):
                     className = mcd.markClass.name
                 allMarkClasses[anchor.key] = currentClasses[className]
         return newDefs
+
+    def _markClassClashes(self, markClass, glyphAnchorPairs):
+        if markClass is None:
+            return False
+        for glyphName, anchor in glyphAnchorPairs.items():
+            mcdef = markClass.glyphs.get(glyphName)
+            if mcdef is not None and not self._anchorsAreEqual(
+                ast.Anchor(
+                    x=otRoundIgnoringVariable(anchor.x),
+                    y=otRoundIgnoringVariable(anchor.y),
+                ),
+                mcdef.anchor,
+            ):
+                return True
+        return False
 
     def _defineMarkClass(self, glyphName, x, y, className, markClasses):
         anchor = ast.Anchor(x=otRoundIgnoringVariable(x), y=otRoundIgnoringVariable(y))
